@@ -1,8 +1,10 @@
-"""C16 stcp session: Session.tla (send loop, receive loop, exit body under exitOnce, accept bound)
-model-checked for every order of terminating events; plans from the spec and seeded random
+"""C16 stcp session: Session.tla (send loop, receive loop, exit body under exitOnce, accept bound,
+Send / Close before Start) model-checked for every order of terminating events and life-cycle calls; plans from the spec and seeded random
 schedules are executed step by step on real sessions over a scripted net.Conn (global quiescence
 after every step, racing pairs fired without waiting), real servers on loopback sockets cover the
-accept bound, real EOF / deadline behaviour; every recorded trace is validated by Session_Trace."""
+accept bound, real EOF / deadline behaviour and bulk transfers (megabytes accepted, local Close while
+the kernel still holds them, slower reader) under the manager options drawn by the plans; every
+recorded trace is validated by Session_Trace."""
 
 # Zero-length Send: the property says that what Send accepted before a local Close reaches the
 # peer.  Send(empty) is accepted (nil) by the pinned code, but the send loop treats the queued empty
@@ -31,6 +33,7 @@ def run(ctx):
     ctx.tlc_mc(fam, "Session", "Session_MC2b.cfg", workers=4)
     ctx.tlc_mc(fam, "Session", "Session_MC_bug_pop.cfg", workers=1, expect_violation="Flush")
     ctx.tlc_mc(fam, "Session", "Session_MC_bug_noonce.cfg", workers=1, expect_violation="SingleExit")
+    ctx.tlc_mc(fam, "Session", "Session_MC_bug_closequit.cfg", workers=1, expect_violation="CountBalanced")
     ctx.tlc_mc(fam, "Session", "Session_MC_live.cfg", workers=4)
     if ctx.thorough:
         ctx.tlc_mc(fam, "Session", "Session_MC_big.cfg", workers=16, timeout=3000, heap="16g")
@@ -45,7 +48,7 @@ def run(ctx):
     ctx.extra["sources_differing_from_head_at_build"] = dirty
     steps_f, free_f = ctx.path("steps.ndjson"), ctx.path("free.ndjson")
     ctx.harness(binary, ["-plans", pdir, "-out", steps_f, "-free", free_f, "-seed", ctx.seed,
-                         "-rand", ctx.q(60, 1500), "-nfree", ctx.q(40, 500),
+                         "-rand", ctx.q(60, 1500), "-nfree", ctx.q(40, 500), "-nbulk", ctx.q(4, 24),
                          "-empty=%s" % ("true" if EMPTY_SENDS else "false")],
                 traces=[steps_f, free_f])
     steps = ctx.load_traces(steps_f)
@@ -83,8 +86,13 @@ def run(ctx):
              "Close / client close / poison frames / 30 ms read deadline; every fifth world fills the "
              "server and fires bursts of 8..12 and 3..6 simultaneous surplus dials (each must be closed; a "
              "connection neither admitted nor closed after 10 s with the process quiescent is recorded as "
-             "start r=hung, which no spec step explains); a trace is one SessionMgr lifetime",
+             "start r=hung, which no spec step explains); bulk worlds: one per write timeout drawn by the plans' init lines "
+             "(300 ms .. 8 s) - 6..8 MB in 128 KB blocks through Server -> Do, Close at once, client reads "
+             "64 KB per ms to the end of the stream and reports the intact blocks in order, the end kind and "
+             "the tail; life-cycle orders on NewSession objects: Send / Close before Start, Close without "
+             "Start, Close racing Start from two goroutines; a trace is one SessionMgr lifetime",
         explanation="after every step: ConnCount, OnExit calls, connection closed, Write / Read in flight, "
                     "bytes at the peer and goroutines left per session must be the quiescent successor "
                     "state of Session.tla; on sockets: admitted/refused per dial, bytes read up to a clean "
-                    "EOF equal everything accepted when Close was the only ending event")
+                    "EOF - or, for a client that never sent anything, up to the end of the stream however it ended - "
+                    "equal everything accepted when Close was the only ending event")
